@@ -111,19 +111,33 @@ class OutLog:
         object.__setattr__(self, "_rig", rig)
         object.__setattr__(self, "_real", real)
 
-    def _log(self, text):
+    def _log(self, text, method):
+        """Log the write with the application's flags at this moment, delegate, and note what the
+        real Output appended to its buffer (Vt100_Output.write escapes, write_raw does not)."""
         rig = self._rig
         app = rig.app
-        rig.events.append(("w", text, bool(app._is_running), bool(app._running_in_terminal),
-                           rig.render_depth > 0, threading.current_thread().name))
+        ev = ["w", text, bool(app._is_running), bool(app._running_in_terminal),
+              rig.render_depth > 0, threading.current_thread().name, None]
+        rig.events.append(ev)
+        buf = getattr(self._real, "_buffer", None)
+        n0 = len(buf) if isinstance(buf, list) else None
+        try:
+            return getattr(self._real, method)(text)
+        finally:
+            buf = getattr(self._real, "_buffer", None)
+            if n0 is not None and isinstance(buf, list):
+                ev[6] = "".join(buf[n0:])
 
     def write(self, data):
-        self._log(data)
-        return self._real.write(data)
+        return self._log(data, "write")
 
     def write_raw(self, data):
-        self._log(data)
-        return self._real.write_raw(data)
+        return self._log(data, "write_raw")
+
+    def flush(self):
+        # the proxy's own self._output.flush() (model: EFlush)
+        self._rig.events.append(("f", threading.current_thread().name))
+        return self._real.flush()
 
     def __getattr__(self, name):
         return getattr(self._real, name)
@@ -236,7 +250,7 @@ class FakeTty(io.StringIO):
 
 
 class Rig:
-    def __init__(self, ctx_default, gated, nwriters=0, sleep=0.0, cpr=False, runstyle=False):
+    def __init__(self, ctx_default, gated, nwriters=0, sleep=0.0, cpr=False, runstyle=False, raw=False):
         import prompt_toolkit.patch_stdout as ps
         from prompt_toolkit.application import Application, create_app_session
         from prompt_toolkit.application.current import get_app_session
@@ -248,7 +262,8 @@ class Rig:
         self.ctx_default = ctx_default
         self.gated = gated
         self.gate = Gate()
-        self.events = []            # ("e",) erase, ("r",) render, ("w", text, run, interm, in_render, thread)
+        self.events = []            # ("e",) erase, ("r",) render, ("w", text, run, interm, in_render, thread),
+        #                             ("f", thread) the proxy's own flush, ("F",) any flush of the real Output
         self.render_depth = 0
         self.loop_pending = collections.deque()
         self.cur_text = None
@@ -271,6 +286,15 @@ class Rig:
             # a terminal that answers cursor position requests (when the schedule says so)
             self.sio = FakeTty()
         self.out = Vt100_Output(self.sio, lambda: Size(rows=24, columns=80), term="xterm", enable_cpr=cpr)
+        # every flush of the real Output object, whoever calls it (the proxy, Renderer.render /
+        # erase / reset, ask_for_cpr): only now does buffered text reach the terminal.  ("F",)
+        # events are for the oracle; they are not part of the trace compared with the model.
+        real_flush = self.out.flush
+
+        def logged_flush():
+            self.events.append(("F",))
+            return real_flush()
+        self.out.flush = logged_flush
         self.cpr_sleepers = []
         self.cpr_waiting_sections = 0
         self.cpr_waits_inflight = 0
@@ -304,7 +328,7 @@ class Rig:
             ps.queue = types.SimpleNamespace(Queue=make_gated_queue(self), Empty=queue.Empty,
                                              Full=queue.Full)
         try:
-            self.proxy = ps.StdoutProxy(sleep_between_writes=sleep)
+            self.proxy = ps.StdoutProxy(sleep_between_writes=sleep, raw=raw)
         finally:
             ps.queue = real_queue_mod
         self.fthread = self.proxy._flush_thread
@@ -631,7 +655,7 @@ class Rig:
         return [f, S("".join(self.buffer_value())), q, [S(t[4]) for t in self.loop_pending],
                 int(self.session.app is not None and self.session.app.loop is not None),
                 int(bool(self.app._is_running)), int(lf is not None and not lf.done()),
-                int(bool(self.app._running_in_terminal)), len(self.events),
+                int(bool(self.app._running_in_terminal)), sum(1 for e in self.events if e[0] != "F"),
                 len(self.app.renderer._waiting_for_cpr_futures), int(self.cpr_waiting_sections > 0)]
 
     def _chosen_loop(self):
@@ -650,9 +674,20 @@ class Rig:
                 evs.append([0])
             elif e[0] == "r":
                 evs.append([1])
-            else:
+            elif e[0] == "f":
+                evs.append([3])
+            elif e[0] == "w":
                 evs.append([2, S(e[1]), int(e[2]), int(e[3])])
-        return [evs, [S(t) for t in self.lost], [S(t) for t in self.handed], len(self.unlocked)]
+        term, pend = [], []
+        for e in self.events:
+            if e[0] == "w":
+                pend.append(e[6] if e[6] is not None else "?not-observed")
+            elif e[0] == "F":
+                term += pend
+                pend = []
+        return [evs, [S(t) for t in self.lost], [S(t) for t in self.handed], len(self.unlocked),
+                [S(e[6] if e[6] is not None else "?not-observed") for e in self.events if e[0] == "w"],
+                S("".join(term))]
 
     # -- let everything run to its end, generously, then tear down
     def finish(self, complete=True):
@@ -742,4 +777,21 @@ class Rig:
         return [t.name for t in (self.writers + [self.host, self.fthread]) if t.is_alive()]
 
     def out_text(self):
-        return "".join(e[1] for e in self.events if e[0] == "w")
+        """What has reached the terminal: text written to the Output AND flushed."""
+        return flushed_text(self.events)[0]
+
+    def unflushed_text(self):
+        return flushed_text(self.events)[1]
+
+
+def flushed_text(events):
+    """-> (text that reached the terminal, text written to the Output object but never
+    flushed).  A write reaches the terminal at the next flush of the real Output (("F",))."""
+    term, pend = [], []
+    for e in events:
+        if e[0] == "w":
+            pend.append(e[1])
+        elif e[0] == "F":
+            term += pend
+            pend = []
+    return "".join(term), "".join(pend)
